@@ -12,9 +12,12 @@ import BctVerif.Props.CoresBetw
 import BctVerif.Props.CoresEbc
 import BctVerif.Props.CoresBwei
 import BctVerif.Props.CoresClust
+import BctVerif.Props.CoresSign
 import BctVerif.Props.CoresChar
 import BctVerif.Props.CoresEff
 import BctVerif.Props.CoresLoc
+import BctVerif.Props.CoresDinv
+import BctVerif.Props.CoresEffW
 import BctVerif.Props.CoresWalks
 import BctVerif.Props.CoresMod
 import BctVerif.Props.CoresSynth
@@ -42,6 +45,7 @@ modules imported here prove, once and for all extracted values, what a passed ob
 | betw (C08) | `Model/CoreIRBetw.lean`, `Model/CoreIREbc.lean` | `CoresBetw`: `body_spec`, `loop_spec`, `mid_spec`, `back_spec`, `for_spec`, `link_betweenness_bin`; `CoresEbc`: `relax_spec`, `visit_spec`, `settle_spec`, `round_spec`, `fill_spec`, `while_spec`, `dep_spec`, `forBV_spec`, `runBW_spec`, `back_spec`, `src_spec`, `sources_spec`, `link_edge_betweenness_bin` | `Between.binLoop`, `binBack`, `betweennessBin`; `push`, `relaxB`, `settle false`, `bfsLoop`, `fillFront`, `backInner`, `backOuter`, `source false`, `brandes false` |
 | char (C03) | `Model/CoreIRChar.lean` | `CoresChar`: `pre_spec`, `tail_spec`, `meanC_spec`, `rowMax_spec`, `link_charpath` | `Dist.charpath`, `meanExt`, `eccCells`, `eccOf`, `radiusDiameter` |
 | eff (C03) | `Model/CoreIREff.lean` (statement language of `Model/CoreIRBin.lean`) | `CoresEff`: `body_spec`, `loop_spec`, `inner_spec`, `sumExt_offDiag`, `link_efficiency_bin` | `Dist.binLoop`, `binRaw`, `distBin`, `meanInvOff`, `efficiencyBin` |
+| eff, `efficiency_wei` global part (C03, C10) | `Model/CoreIRDinv.lean` (statement language and interpreter of `Model/CoreIRDijk.lean`), `Model/CoreIREffW.lean` | `CoresDinv`: `block_envD`, `forNodesD_spec`, `settleD_spec`, `tailD_spec`, `passD_spec`, `whileD_spec`, `rowD_spec`, `rowsD_spec`, `link_dinv_dijk`; `CoresEffW`: `Gl_eq`, `lenMat_inv`, `invMatOf_ext`, `sum_inv`, `link_efficiency_wei` | `Dist.relaxFrom`, `settle`, `minOver`, `dLoop`, `dRow`, `dijkstra` (distances), `lenMat .inv`, `meanInvOff`, `efficiencyWei` |
 | eff, local branch (C03) | `Model/CoreIRLoc.lean` (nested function and statement language of `Model/CoreIRBin.lean`) | `CoresLoc`: `subV_numM`, `binarize_sub`, `finiteInv_distOf`, `invCell_distOf`, `node_spec`, `link_efficiency_bin_local` | `LocalEff.nbrs`, `subMat`, `links`, `core`, `effBinOn`, `effBinNode` (`Dist.distBin` on the neighbourhood) |
 | walks (C18) | `Model/CoreIRWalks.lean` (expressions of `Model/CoreIRClust.lean`) | `CoresWalks`: `pre_spec`, `tail_spec`, `link_pagerank`, `link_pagerank_model`, `solve_diag_unique`, `link_mfpt_model` | `Walks.colDeg`, `prMat`, `prior`, `solves`, `pagerank`; `Walks.transition`, `fundArg`, `isInvOf`, `mfpt` |
 | modq (C02, C07) | `Model/CoreIRMod.lean` (expressions of `Model/CoreIRClust.lean`), `Model/CoreIRPin.lean` | `CoresMod`: `link_mod_und`, `link_mod_dir` (the other routines of the family are source pins without link theorems) | `Modularity.modularityUndGiven`, `modularityDirGiven` |
@@ -50,6 +54,7 @@ modules imported here prove, once and for all extracted values, what a passed ob
 | nullm (C06) | `Model/CoreIRNull.lean`, `Model/CoreIRPin.lean` | `CoresNull`: `innerLoop_spec`, `roundI_spec`, `loopI_spec`, `signI_spec`, `link_null`, `link_null_und`, `link_null_dir` (the four correlations at the end and the callees `randmio_*_signed` are source pins) | `Signed.dealRound`, `dealLoop`, `dealSign`, `writeAsg`, `cellsWhere`, `sortedWeights`, `nullModel` |
 | nbs (C19) | `Model/CoreIRNbs.lean`, `Model/CoreIRPin.lean` | `CoresNbs`: `varOr_cast`, `ss_cast`, `ssd_eq_pairedSS`, `runT2_spec`, `runPair_spec`, `link_tstat` (numbers read as reals, `Real.sqrt`; the rest of `nbs_bct` is a source pin) | `Nbs.exceeds2`, `exceedsP`, `exceeds` (`pooledV`, `pairedSS`, `gtSqrt`, `tnum`) |
 | clust (C09) | `Model/CoreIRClust.lean` | `CoresClust`: `perNode_cell`, `link_cc_bd`, `link_cc_wd`, `link_cc_wu`, `link_cc_bu`, `link_trans_bd`, `link_trans_bu`, `link_trans_wd`, `link_trans_wu` | `Cluster.ccBd`, `ccWd`, `ccWu`, `ccBu`, `transBd`, `transBu`, `transWd`, `transWu` (`perNode`, `gdiv`, `ccFagiolo`, `transFagiolo`) |
+| clust, signed (C09) | `Model/CoreIRSign.lean` (whole-array statements of `Model/CoreIRClust.lean`) | `CoresSign`: `link_sign_default`, `link_sign_zhang`, `link_sign_cost`, `link_sign_Zhang`, `link_sign_Cost`, `link_sign_other` | `Cluster.zeroDiag`, `posPart`, `negPart`, `ccWu`, `ccSignDefault`, `zhangCore`, `ccSignZhang`, `ccSignCost` |
 | reach (C03) | `Model/CoreIRReach.lean` | `CoresReach`: `step_spec`, `rec_spec`, `link_reachdist` | `Dist.reachStep`, `reachGo`, `reachOutCell`, `reachdist` |
 | util (C17, C06) | `Model/CoreIRUtil.lean` | `CoresUtil`: `link_teachers_round`, `link_threshold_absolute`, `link_binarize`, `link_normalize`, `link_invert`, `link_logtransform`, `link_cuberoot`, `link_pick_four`, `link_weight_conversion`; `CoresTp` (`Model/CoreIRTp.lean`): `link_threshold_proportional` | `Thresh.teachersRound/thresholdAbsolute/binarize/normalize/invert/weightConversion/thresholdProportional`, `Signed.pickFour` |
 
